@@ -60,19 +60,21 @@ def tier_plan(quick):
             ("unhash", 2, 3, 2, ["iter", "cursor_json"], True),
         ]
     return [
-        ("fetch", 4, 5, 3, ALL_IMPLS, False),
-        ("views", 3, 5, 3, ALL_IMPLS, False),
-        ("shape", 3, 5, 3, ALL_IMPLS, False),
-        ("shapev", 3, 4, 3, ["iter", "chunk", "cursor", "cursor_json", "stream1", "stream2", "full"], False),
-        ("compose", 3, 4, 3, ["iter", "chunk", "frozen", "cursor", "cursor_json", "stream2", "streamg", "full"], False),
-        ("unhash", 3, 4, 3, ["iter", "frozen", "cursor_json"], True),
+        ("fetch", 4, 6, 3, ALL_IMPLS, False),
+        ("views", 3, 4, 3, ["iter", "merged", "frozen", "cursor", "cursor_json", "full"], False),
+        ("views", 2, 5, 2, ["stream1", "stream2", "streamg", "cursor_merged", "chunk"], False),
+        ("shape", 3, 4, 2, ["iter", "frozen@chunk", "merged@chunk", "chunk", "cursor", "cursor_json", "stream1", "stream2", "streamg", "full"],
+         False),
+        ("shapev", 3, 4, 2, ["iter", "chunk", "cursor", "cursor_json", "stream1", "stream2", "full"], False),
+        ("compose", 3, 4, 2, ["iter", "chunk", "frozen", "merged", "cursor", "cursor_json", "stream2", "streamg", "full"], False),
+        ("unhash", 3, 4, 2, ["iter", "frozen", "cursor_json"], True),
     ]
 
 
-def consts(fam, bufmax, growth, scen, maxrows, depth, unhash, ndom=3, dev_view=False, dev_full=False):
+def consts(fams, scen, maxrows, depth, unhash, ndom=3, dev_view=False, dev_full=False):
     ops, vops, sizes, psizes = SCEN[scen]
-    return dict(MaxRows=maxrows, MaxDepth=depth, Hi=2 if unhash else 1, NDom=ndom, UVals={2} if unhash else set(), Fam=tlc.q(fam), BufMax=bufmax,
-                Growth=growth, Ops={tlc.q(o) for o in ops}, ViewOps={tlc.q(o) for o in vops}, Sizes=set(sizes), PSizes=set(psizes),
+    return dict(MaxRows=maxrows, MaxDepth=depth, Hi=2 if unhash else 1, NDom=ndom, UVals={2} if unhash else set(),
+                Fams={tlc.q(f) for f in fams}, Ops={tlc.q(o) for o in ops}, ViewOps={tlc.q(o) for o in vops}, Sizes=set(sizes), PSizes=set(psizes),
                 DevViewUniqueStale=dev_view, DevFullFetchmany0=dev_full)
 
 
@@ -84,21 +86,28 @@ def _dump(args):
     return gid, g
 
 
+GROUP = 4      # configurations per TLC run (one single-worker JVM dumps the edges of up to GROUP families)
+
+
 def build_graphs(chk, plan):
-    """one TLC run (model check + edge dump) per distinct (family, scenario); returns {gid: Graph}, {gid: (consts, impls, depth, unhash)}"""
+    """One TLC run (model check + edge dump) per (scenario, bounds, group of <= GROUP configurations).
+    Returns {gid: Graph}, {gid: (consts, [(impl, cfg)], depth, unhash)}"""
     need = {}
     for scen, maxrows, depth, ndom, impls, unhash in plan:
+        cfgs = {}
         for impl in impls:
-            # "impl@fam": replay impl on the graph of another family whose behaviours are a subset of its own (the chunk graph is the
-            # iter graph minus yield_per() after the first fetch)
+            # "impl@cfg": replay impl on the walks of another configuration whose behaviours are a subset of its own (the chunk
+            # configuration is the iter one minus yield_per() after the first fetch)
             impl, _, over = impl.partition("@")
-            fam, bm, gr = rd.fam_key(impl)
-            if over:
-                fam = over
-            if fam == "chunk" and "YieldPer" not in SCEN[scen][0] + SCEN[scen][1]:
-                fam = "iter"        # ChunkedIteratorResult differs from IteratorResult only in yield_per()
-            gid = "%s-%s%s" % (scen, fam, ("%d_%d" % (bm, gr)) if fam == "buffered" else "")
-            need.setdefault(gid, (consts(fam, bm, gr, scen, maxrows, depth, unhash, ndom), [], depth, unhash))[1].append(impl)
+            cfg = over or rd.cfg_of(impl)
+            if cfg == "chunk" and "YieldPer" not in SCEN[scen][0] + SCEN[scen][1]:
+                cfg = "iter"        # ChunkedIteratorResult differs from IteratorResult only in yield_per()
+            cfgs.setdefault(cfg, []).append(impl)
+        names = sorted(cfgs)
+        for k in range(0, len(names), GROUP):
+            grp = names[k:k + GROUP]
+            gid = "%s%d%d%d-%d" % (scen, maxrows, depth, ndom, k // GROUP)
+            need[gid] = (consts(grp, scen, maxrows, depth, unhash, ndom), [(i, c) for c in grp for i in cfgs[c]], depth, unhash)
     par = max(1, min(len(need), tlc.NPROC // 2 if tlc.NPROC > 2 else 1, 8))
     with ThreadPoolExecutor(par) as ex:
         graphs = dict(ex.map(_dump, [(gid, v[0], chk.work) for gid, v in need.items()]))
@@ -107,7 +116,7 @@ def build_graphs(chk, plan):
 
 def sig_of(m, mode):
     s = {"spec": "ResultCursor", "kind": "conformance", "mode": mode, "impl": m["impl"], "action": m["act"]["a"], "h": m["act"]["h"],
-         "arg": json.dumps(m["act"]["arg"]), "scenario": m["gid"].split("-")[0]}
+         "arg": json.dumps(m["act"]["arg"]), "scenario": m["gid"].split("-")[0].rstrip("0123456789")}
     s.update(m.get("labels") or {})
     return s
 
@@ -122,11 +131,11 @@ def report(chk, mism, mode):
 
 
 def replay_compiled(chk, jobs, plan, shards=2):
-    """Replay (jobs, plan) - {gid: resultcursor_driver.slim(graph, walks)}, [(gid, impl)] - in fresh interpreters that keep the prebuilt
+    """Replay (jobs, plan) - {gid: resultcursor_driver.slim(graph, walks)}, [(gid, impl, cfg)] - in fresh interpreters that keep the prebuilt
     compiled _result_cy/_row_cy (VERIF_COMPILED=1).  Returns {steps, walks, mismatches, per_impl}.  Used by C10; C55 can call it with
     its own plan (build the jobs with build_graphs + graph.plan_tours + resultcursor_driver.slim)."""
     files = rd.write_jobs(chk.work, jobs)
-    est = {gid: sum(len(w) for w in jobs[gid]["walks"]) for gid in jobs}
+    est = {(gid, cfg): rd.job_steps(jobs[gid], cfg) for gid, _, cfg in plan}
     hs = [rd.launch(chk.work, "c%d_%d" % (os.getpid(), i), files, sl, compiled=True) for i, sl in enumerate(rd.split(plan, est, shards))]
     return _gather(chk, hs)
 
@@ -187,21 +196,23 @@ def main(chk):
         if st["edges_covered"] + st["edges_beyond_depth"] != st["edges"]:
             chk.machinery("tour planner left edges uncovered in %s: %r" % (gid, st))
         jobs[gid] = rd.slim(g, walks, uvals=(2,) if unhash else ())
-        est[gid] = sum(len(w) for w in walks)
-        for impl in need[gid][1]:
-            rplan.append((gid, impl))
+        for impl, cfg in need[gid][1]:
+            rplan.append((gid, impl, cfg))
+            est[(gid, cfg)] = rd.job_steps(jobs[gid], cfg)
+            if not est[(gid, cfg)]:
+                chk.machinery("no walks for configuration %s in %s" % (cfg, gid))
     files = rd.write_jobs(chk.work, jobs)
     # pure-Python shards and compiled shards (default strategy: second binding, feeds C55) run side by side in fresh interpreters
     t1 = time.time()
-    cplan = [(gid, impl) for gid, impl in rplan if impl in ("cursor", "cursor_json")]
+    cplan = [it for it in rplan if it[1] in ("cursor", "cursor_json")]
     nsh = max(1, min(tlc.NPROC - 2, 8))
     hp = [rd.launch(chk.work, "p%d" % i, files, sl) for i, sl in enumerate(rd.split(rplan, est, nsh))]
     hc = [rd.launch(chk.work, "c%d" % i, files, sl, compiled=True) for i, sl in enumerate(rd.split(cplan, est, 2))]
     # 3. meanwhile: the properties are not vacuous - under each named deviation (= the pinned tree's behaviour) TLC must find the violation
     sens = {}
     for name, c, expect in [
-        ("view-unique-stale-memo", consts("iter", 2, 5, "views", 2, 4, False, 2, dev_view=True), ("ListModel", "UniqueRespected")),
-        ("full-fetchmany0", consts("full", 2, 5, "fetch", 2, 3, False, 2, dev_full=True), ("NoSilentLoss", "ListModel")),
+        ("view-unique-stale-memo", consts(["iter"], "views", 2, 4, False, 2, dev_view=True), ("ListModel", "UniqueRespected")),
+        ("full-fetchmany0", consts(["full"], "fetch", 2, 3, False, 2, dev_full=True), ("NoSilentLoss", "ListModel")),
     ]:
         cfg2 = tlc.cfg(constants=c, init="Init", invariants=INVS, properties=list(expect), view="View", constraints=["Depth"])
         r2 = tlc.run("ResultCursor", cfg2, os.path.join(chk.work, "sens_" + name), workers=2, timeout=900, keep_stdout=False, heap="3g")
@@ -220,7 +231,8 @@ def main(chk):
     sample = []
     for gid in sorted(jobs)[:3]:
         j = jobs[gid]
-        w = j["walks"][len(j["walks"]) // 2]
+        ws = sorted(j["walks"].items())[0][1]
+        w = ws[len(ws) // 2]
         sample.append({"graph": gid, "rows": j["states"][j["edges"][w[0]][0]]["rows"],
                        "calls": ["%s%s(%s)->%s" % ("v." if j["edges"][ei][1]["h"] == "v" else "", j["edges"][ei][1]["a"],
                                                    j["edges"][ei][1]["arg"], rd._show(j["edges"][ei][1]["ret"])) for ei in w]})
@@ -228,13 +240,13 @@ def main(chk):
         dict(states=states, transitions=transitions, graphs=len(graphs), edges=nedges,
              traces_validated_against_impl=pres["walks"] + cres["walks"], evaluations=pres["steps"] + cres["steps"],
              steps_pure=pres["steps"], steps_compiled=cres["steps"], distinct_nontrivial=nontriv,
-             implementations=len(set(i for _, i in rplan)), per_impl_steps=pres["per_impl"], per_impl_steps_compiled=cres["per_impl"],
+             implementations=len(set(it[1] for it in rplan)), per_impl_steps=pres["per_impl"], per_impl_steps_compiled=cres["per_impl"],
              samples=sample, plans=plans, action_coverage=cov, sensitivity_runs=sens, exhaustive=True,
              wall_tlc_s=round(t_tlc, 1), wall_replay_s=round(t_replay, 1),
-             rule="every labelled edge of every ResultCursor state graph (one per family x scenario, all row sequences up to the bound as "
-                  "initial states) is covered by a walk from an initial state and replayed on every implementation of that family; "
+             rule="every labelled edge of every ResultCursor state graph (per scenario; initial states = all row sequences up to the bound "
+                  "x implementation configurations) is covered by a walk from an initial state and replayed on every implementation of that family; "
                   "non-trivial = edges on which rows are delivered or an exception is raised",
-             checker_cmd="tlc ResultCursor.tla (VIEW View, ACTION_CONSTRAINT Emit), one run per family x scenario"),
+             checker_cmd="tlc ResultCursor.tla (VIEW View, ACTION_CONSTRAINT Emit), one run per scenario x group of configurations"),
         assumptions=["SQLite/sqlite3 only; raw DBAPI cursor.fetchmany(0) (returns all rows in sqlite3) excluded for the default strategy",
                      "rows are pairs over a 2-value domain (2-3 distinct rows, duplicates by construction); unhashable values as JSON lists",
                      "one filtered view per walk; base yield_per() only before a view exists; ChunkedIteratorResult.yield_per only before "
